@@ -445,3 +445,19 @@ def add_rules(rng, scn, n, kinds=('time', 'clock', 'level'), targets=None, on_ru
                                 'priority': rng.pick([0, 1, 2, 3, 3, 4, 5, 6])})
         made += 1
     return made
+
+
+def add_source_tcv(rng, scn):
+    """a throttle control valve attached directly to a tank or reservoir (allowed for TCVs), in parallel with an existing pipe of that source
+    so that connectivity does not depend on it; either orientation"""
+    src = [n['id'] for n in scn['nodes'] if n['type'] in ('T', 'R')]
+    cands = [l for l in scn['links'] if l['type'] == 'pipe' and not l.get('cv') and ((l['a'] in src) != (l['b'] in src))]
+    if not cands:
+        return None
+    l0 = rng.pick(cands)
+    a, b = (l0['a'], l0['b']) if rng.chance(0.5) else (l0['b'], l0['a'])
+    n = 1 + sum(1 for l in scn['links'] if l['id'].startswith('vs'))
+    v = {'id': 'vs%d' % n, 'type': 'valve', 'a': a, 'b': b, 'vtype': 'TCV', 'diam': rng.pick([0.15, 0.2, 0.3]), 'minor': rng.pick([0.0, 1.0]),
+         'status': 'ACTIVE', 'setting': rng.pick([5.0, 50.0, 500.0])}
+    scn['links'].append(v)
+    return v
